@@ -6,7 +6,14 @@ A case-analysis property: specs/Admission/Admission.tla defines the abstract sub
 property (Valid / MayEnter) and a transcription of the handlers' checks; TLC (a) proves transcription => property over
 every case and refutes it for each control variant (one check dropped), (b) ENUMERATES every case as a schedule; the
 executor instantiates each case with real objects and real BLS key shares and runs it through the real handlers; TLC
-validates every recorded outcome against the spec."""
+validates every recorded outcome against the spec.
+
+The admission rule is per element and history-free; beyond the single-element cases the model therefore has BATCH cases
+(one request with 2..3 elements: every assignment of the elements' valid signatures to the elements - permutations whose
+errors cancel in a sum -, one bad element at each position, duplicates, two elements of one validator) and SEQUENCES
+(2..3 calls to the same component instances that carry the same signature bytes: the valid object, one signed field
+changed, another duty type, another kind's object, exact replays, in every order).  Every schedule runs against
+component instances of its own."""
 import json, os
 from concurrent.futures import ThreadPoolExecutor
 import vlib
@@ -22,7 +29,13 @@ RULE = ("cases = path (validator-API endpoint | peer message) x object kind (12)
         "two-entry request with one bad entry; slot and attestation target epoch on opposite sides of a fork activation, "
         "signed with the fork version of the type's epoch source (must enter) or of the other time field (must not); peer: "
         "share index 0 / n+1 / another peer's, duty beyond / at the edge of the gater window, duty slot 2^63 / 2^63+now / "
-        "2^64-1, every other claimed duty type), ENUMERATED by TLC from specs/Admission (N=4 shares, V=3 validators); the "
+        "2^64-1, every other claimed duty type; a well-formed object of one kind carrying the valid signature of another "
+        "kind's object), x BATCHES (one request with 2..3 elements of every batch-capable endpoint / a peer set with "
+        "several validators: all n^n assignments of the elements' valid signatures to the elements, with equal and with "
+        "different signing roots, one bad element (4 classes) at each position, duplicates, two elements of one validator) "
+        "x SEQUENCES (2..3 calls against the same component instances that carry the same signature bytes: valid, each "
+        "single field changed, other duty type, other kind's object, replay - all ordered pairs, 4 shapes of triples), "
+        "ENUMERATED by TLC from specs/Admission (N=4 shares, V=3 validators); every schedule gets fresh component instances; the "
         "executor signs from the model's own tables (domain name and epoch source per type, carried in the schedule); "
         "quick: stratified - at least one case of every (path, kind, alteration, argument) class, every data version for "
         "the unaltered and the fork-straddling cases - plus a seeded sample, thorough: all; each "
@@ -40,7 +53,11 @@ ASSUMPTIONS = [
     "whether a refused submission is reported with an error is not constrained; where the statement is silent the spec is "
     "nondeterministic: valid siblings of a bad entry in one validator-API request, an aggregate/contribution whose embedded "
     "selection proof is bad but whose partial signature is good, phase0/altair proposals (refused as unsupported)",
-    "an unaltered submission (and a duty in the last allowed future epoch) must be admitted, otherwise the run would be vacuous",
+    "an unaltered submission (and a duty in the last allowed future epoch) must be admitted, otherwise the run would be vacuous; "
+    "so must a batch of valid elements of different validators; an exact re-submission of an admitted element may or may not "
+    "enter again, and of two elements of one validator in one validator-API request either may be the one handed on",
+    "the executor concretises 'same signing root' for the kinds whose signed content does not name the validator "
+    "(attestation, sync message, selections, randao) and gives all calls of a sequence the same signature bytes",
 ]
 CONTROLS = [("AdmissionMC_ctl_dropverify.cfg", "verifyPartialSig dropped from SubmitVoluntaryExit"),
             ("AdmissionMC_ctl_dropverify_att.cfg", "verifyPartialSig dropped from SubmitAttestations"),
@@ -49,7 +66,9 @@ CONTROLS = [("AdmissionMC_ctl_dropverify.cfg", "verifyPartialSig dropped from Su
             ("AdmissionMC_ctl_senderidx.cfg", "verifier looks the share up by the sender, not data.ShareIdx"),
             ("AdmissionMC_ctl_swapepoch_att.cfg", "attestation domain taken from the slot's fork, not the target epoch's"),
             ("AdmissionMC_ctl_swapepoch_agg.cfg", "aggregate domain taken from the target epoch's fork, not the slot's"),
-            ("AdmissionMC_ctl_signedgater.cfg", "duty gater in int64: a duty slot >= 2^63 passes")]
+            ("AdmissionMC_ctl_signedgater.cfg", "duty gater in int64: a duty slot >= 2^63 passes"),
+            ("AdmissionMC_ctl_aggbatch.cfg", "SubmitSyncCommitteeMessages checks a request with one aggregate verification per signing root"),
+            ("AdmissionMC_ctl_memo.cfg", "the peer verifier admits a remembered (public share, signature) pair without looking at the object")]
 
 
 def design_check(o, thorough):
@@ -71,10 +90,13 @@ def design_check(o, thorough):
             o.selftests.append({"control": "spec variant '%s' violates OnlyValidEnter" % what, "rejected_as_required": True})
 
 
-def enumerate_cases(sdir):
-    r = vlib.tlc(PID, FAMILY, "AdmissionGen", "AdmissionGen.cfg", workers=2, timeout=900, sdir=sdir)
+GEN_CFGS = ("AdmissionGen.cfg", "AdmissionGen_batch.cfg", "AdmissionGen_seq.cfg")
+
+
+def enumerate_cases(cfg, sdir):
+    r = vlib.tlc(PID, FAMILY, "AdmissionGen", cfg, workers=2, timeout=900, sdir=sdir)
     if not r.ok:
-        raise vlib.Infra("case enumeration failed: %s\n%s" % (r.summary(), r.out[-2000:]))
+        raise vlib.Infra("case enumeration (%s) failed: %s\n%s" % (cfg, r.summary(), r.out[-2000:]))
     out = []
     for p in vlib.tagged_prints(r, "SCHED"):
         try:
@@ -82,23 +104,33 @@ def enumerate_cases(sdir):
         except Exception as e:
             raise vlib.Infra("cannot parse generated case: %s: %s" % (e, p[:200]))
     if len(out) != r.distinct - 1:
-        raise vlib.Infra("case enumeration incomplete: %d printed, %d states" % (len(out), r.distinct))
-    out.sort(key=lambda s: json.dumps(s[1], sort_keys=True))
+        raise vlib.Infra("case enumeration (%s) incomplete: %d printed, %d states" % (cfg, len(out), r.distinct))
+    out.sort(key=lambda s: json.dumps(s[1:], sort_keys=True))
     return out, r
 
 
 PER_VERSION = ("none", "straddleOK", "straddleBad", "wrongFork")
 
 
+def is_batch(s):
+    return s[1]["ev"] == "SubmitBatch"
+
+
 def cls(s):
-    """Stratum of a case: everything but node / validator (and the share argument); the data version too where the
-    handlers' epoch / root code is per version."""
+    """Stratum of a schedule: everything but node / validator (and the share argument); the data version too where the
+    handlers' epoch / root code is per version.  Batches: path, kind, pattern.  Sequences: path, origin kind, the calls'
+    (kind, alteration, argument)."""
     c = s[1]["c"]
+    if is_batch(s):
+        q = c["pat"]
+        return ("batch", c["path"], c["kind"], tuple(q["vs"]), tuple(q["cs"]), tuple(q["ss"]), tuple(q["bad"]))
+    if len(s) > 2:
+        return ("seq", c["path"]) + tuple((x["c"]["kind"], x["c"]["alt"], x["c"]["as"]) for x in s[1:])
     return (c["path"], c["kind"], c["alt"], c["as"], c["ai"] if c["alt"] == "dutyType" else 0,
             c["ver"] if c["alt"] in PER_VERSION else "")
 
 
-def select(cases, seed, n):
+def select(cases, seed, extra):
     """Stratified: every class at least once (seeded choice of node / validator / remaining version), then a seeded
     sample of the rest."""
     r = vlib.rng(seed, "c10")
@@ -108,11 +140,41 @@ def select(cases, seed, n):
     pick = {r.choice(v) for v in by.values()}
     rest = [i for i in range(len(cases)) if i not in pick]
     r.shuffle(rest)
-    pick |= set(rest[:max(0, n - len(pick))])
+    pick |= set(rest[:extra])
     return [cases[i] for i in sorted(pick)], len(by)
 
 
+DUTY = {"attestation": 2, "proposal": 1, "blinded": 1, "randao": 7, "exit": 4, "registration": 6, "bcselection": 8,
+        "aggregate": 9, "aggregate_legacy": 9, "syncmsg": 10, "scselection": 11, "contribution": 12}
+
+
 def mutators():
+    def replayed_sig_admitted(t):
+        # sequence: the call that carries the known signature on changed content is reported as admitted
+        if t[1]["ev"] != "Submit" or t[1]["c"]["alt"] != "none" or len(t) < 6 or t[2]["ev"] != "Deliver":
+            return None
+        for i in range(3, len(t) - 1):
+            if t[i]["ev"] == "Submit" and t[i]["c"]["alt"] == "field" and t[i + 1]["ev"] == "Return":
+                t.insert(i + 1, dict(t[2]))
+                return t
+        return None
+
+    def permuted_batch_admitted(t):
+        # batch: the elements carry each other's signatures, and the first one is reported as admitted
+        c = t[1]["c"]
+        if t[1]["ev"] != "SubmitBatch" or len(t) != 3 or c["pat"]["ss"][:2] != [2, 1] or c["pat"]["vs"][:2] != [0, 1]:
+            return None
+        t.insert(2, {"ev": "Deliver", "k": 1, "val": c["val"], "idx": c["node"] if c["path"] == "vc" else c["sender"],
+                     "dt": DUTY[c["kind"]]})
+        return t
+
+    def part_of_valid_peer_batch(t):
+        c = t[1]["c"]
+        if t[1]["ev"] == "SubmitBatch" and c["path"] == "peer" and len(t) == 6 and c["pat"]["ss"] == [1, 2, 3]:
+            del t[3]
+            return t
+        return None
+
     def spurious_delivery(t):
         # an altered (to-be-refused) submission is reported as having reached the subscribers
         if t[1]["c"]["alt"] in ("otherShare", "zeroSig", "field", "wrongDomain", "future") and len(t) == 3:
@@ -157,7 +219,10 @@ def mutators():
             t[2]["k"] = 0
             return t
         return None
-    return [("delivery added to a refused case", spurious_delivery), ("delivery of a valid case dropped", lost_delivery),
+    return [("sequence: known signature on changed content reported as admitted", replayed_sig_admitted),
+            ("batch: element carrying another element's signature reported as admitted", permuted_batch_admitted),
+            ("batch: one of three valid elements of a peer set not delivered", part_of_valid_peer_batch),
+            ("delivery added to a refused case", spurious_delivery), ("delivery of a valid case dropped", lost_delivery),
             ("delivered share index changed", wrong_index), ("delivered under another duty type", wrong_duty),
             ("valid half of a peer set with a bad entry delivered", half_of_peer_set),
             ("delivered entry is not one of the submitted ones", foreign_entry)]
@@ -175,18 +240,23 @@ def check_anomalies(tag):
 def run(tier, seed):
     o = vlib.Outcome(PID, tier, seed)
     thorough = tier == "thorough"
-    # stage 0 (design check) and stage 1 (case enumeration) are independent TLC jobs
-    gdir = vlib.scratch(PID, FAMILY)
-    with ThreadPoolExecutor(max_workers=2) as ex:
-        f1 = ex.submit(enumerate_cases, gdir)
+    # stage 0 (design check) and stage 1 (case enumeration, one TLC job per family) are independent TLC jobs
+    gdirs = [vlib.scratch(PID, FAMILY) for _ in GEN_CFGS]
+    with ThreadPoolExecutor(max_workers=4) as ex:
+        fg = [ex.submit(enumerate_cases, cfg, d) for cfg, d in zip(GEN_CFGS, gdirs)]
         f0 = ex.submit(design_check, o, thorough)
         f0.result()
-        cases, g = f1.result()
+        gens = [f.result() for f in fg]
+    cases = [s for g, _ in gens for s in g]
+    nfam = [len(g) for g, _ in gens]
+    if min(nfam) == 0:
+        raise vlib.Infra("a schedule family is empty: %s" % nfam)
     if thorough:
         scheds, nclasses = cases, len({cls(s) for s in cases})
     else:
-        scheds, nclasses = select(cases, seed, 3000)
-    log("[%s] %d cases enumerated by TLC (%.1fs), %d classes, %d selected" % (PID, len(cases), g.wall, nclasses, len(scheds)))
+        scheds, nclasses = select(cases, seed, 800)
+    log("[%s] %d schedules enumerated by TLC (%d single-element cases, %d batches, %d sequences; %.1fs), %d classes, %d selected"
+        % (PID, len(cases), nfam[0], nfam[1], nfam[2], max(r.wall for _, r in gens), nclasses, len(scheds)))
     # endpoint cross-check first: an exported method of validatorapi.Component that takes signed input and is not in
     # the model (or the reverse) is an infrastructure failure, not a verdict
     vlib.run_schedules(PID, PKG, "TestExec", scheds[:1], tag="probe")
@@ -200,12 +270,24 @@ def run(tier, seed):
     admitted = sum(1 for t in tr if any(e.get("ev") == "Deliver" for e in t))
     if not o.violations and (admitted == 0 or admitted == len(tr)):
         raise vlib.Infra("vacuous run: %d of %d cases admitted" % (admitted, len(tr)))
+    # the new dimensions are exercised: a call after an admitted one that is refused, a multi-element request that is
+    # admitted entirely, one that is refused
+    if not o.violations:
+        seq_ref = sum(1 for t in tr if t[1]["ev"] == "Submit" and sum(1 for e in t if e["ev"] == "Submit") > 1
+                      and t[2]["ev"] == "Deliver" and any(t[i]["ev"] == "Submit" and t[i + 1]["ev"] == "Return"
+                                                          for i in range(3, len(t) - 1)))
+        b_all = sum(1 for t in tr if t[1]["ev"] == "SubmitBatch" and len(t) == 3 + len(t[1]["c"]["pat"]["vs"]))
+        b_none = sum(1 for t in tr if t[1]["ev"] == "SubmitBatch" and len(t) == 3)
+        if min(seq_ref, b_all, b_none) == 0:
+            raise vlib.Infra("vacuous run: %d sequences with a refused call after an admitted one, %d batches admitted "
+                             "entirely, %d refused" % (seq_ref, b_all, b_none))
     n0 = len(o.selftests)
     vlib.binding_selftest(o, FAMILY, "AdmissionTrace", "AdmissionTrace.cfg", tr, mutators())
-    if len(o.selftests) - n0 < 6 and not o.violations:
+    if len(o.selftests) - n0 < 9 and not o.violations:
         raise vlib.Infra("binding self-test: some negative control found no applicable trace")
     return vlib.finish(o, "exploration", RULE, ASSUMPTIONS,
-                       extra_cov={"cases_enumerated_by_tlc": len(cases), "case_classes": nclasses,
+                       extra_cov={"cases_enumerated_by_tlc": len(cases), "single_element_cases": nfam[0], "batches": nfam[1],
+                                  "sequences": nfam[2], "case_classes": nclasses,
                                   "cases_admitted": admitted, "cases_refused": len(tr) - admitted,
                                   "exhaustive": bool(thorough and not o.violations)})
 
